@@ -36,6 +36,14 @@ func newTokenizer(kind string) tokenizers.ITokenizer {
 		t := generic.NewGenericTokenizer()
 		t.SetCharacterState(0x2190, 0x21ff, t.SymbolState())
 		t.SetCharacterState(0x3000, 0x3000, t.WhitespaceState())
+		// white space beyond ASCII: the no-break space, the em space and the ideographic space are white space of this tokenizer
+		t.SetCharacterState(0xa0, 0xa0, t.WhitespaceState())
+		t.SetCharacterState(0x2003, 0x2003, t.WhitespaceState())
+		if ws, ok := t.WhitespaceState().(*generic.GenericWhitespaceState); ok {
+			ws.SetWhitespaceChars(0x3000, 0x3000, true)
+			ws.SetWhitespaceChars(0xa0, 0xa0, true)
+			ws.SetWhitespaceChars(0x2003, 0x2003, true)
+		}
 		return t
 	case "generic-quotes":
 		// non-ASCII quote characters handed to the quote state
@@ -302,7 +310,7 @@ var tokAlpha = map[string][]rune{
 	"csv":                {'a', ',', '"', '\r', '\n', ';', ' ', 0x416, 0x1F600},
 	"mustache":           {'a', '{', '}', '#', '/', '"', ' ', '\n', '^', 0x416, 0x1F600},
 	"generic-custom":     {'a', '=', ':', '<', '!', '-', '>', '1', ' '},
-	"generic-arrows":     {'a', 0x2192, 0x2190, 0x3000, 0x416, 0x21ff, 0x2200, ' ', '\'', '1'},
+	"generic-arrows":     {'a', 0x2192, 0x2190, 0x3000, 0x416, 0x21ff, 0x2200, ' ', '\'', '1', 0xa0, 0x2003},
 	"csv-wide":           {'a', 0xff1b, 0xab, '"', '\r', '\n', 0x416, ',', 0x65e5},
 	"generic-quotes":     {'a', 0xab, 0x201c, '\'', '"', ' ', 0x416, '1', '\n'},
 	"generic-unknownsym": {'a', '?', '!', ' ', '1', '<', 0xffff, '#', '\n'},
@@ -318,7 +326,7 @@ var tokAlphaCore = map[string][]rune{
 	"csv":                {'a', ',', '"', '\r', '\n'},
 	"mustache":           {'a', '{', '}', '#', ' ', '"'},
 	"generic-custom":     {'=', ':', '<', '!', '-', '>'},
-	"generic-arrows":     {'a', 0x2192, 0x3000, 0x416, ' '},
+	"generic-arrows":     {'a', 0x2192, 0x3000, 0x416, ' ', 0xa0, 0x2003},
 	"csv-wide":           {'a', 0xff1b, 0xab, '\r', 0x416},
 	"generic-quotes":     {'a', 0xab, 0x201c, '\'', ' '},
 	"generic-unknownsym": {'a', '?', '!', ' ', 0xffff},
@@ -332,7 +340,7 @@ var tokSnippets = map[string][]string{
 	"expression":         {"a + b*2 - f(x, 'it''s') /* c */ <= 3.5e-2", "1e 1e+ 1.e5 .5 . - / /* open", "NOT x IS NULL and \"q\"\"r\" != 2 >> 1", "a/b /**/ c/", "x<>y<=z>=w<<1", "'abc\n'\r\n1", "a i\u017f null or x l\u0131ke 'y' and b li\u212ae c", "fal\u017fe x\uffffy <\u013d \u013c"},
 	"csv":                {"a,b,c\r\n1,\"x,y\",3\n", "\"a\"\"b\",,\r,\n\r\"", "a;b\rc\n\nd\"", "\"unterminated,\r\n", "поле,\"знач\"\"ение\"\n"},
 	"generic-custom":     {"a=:=b=:c=d", "<!-- x --> <!- <! !>>> !>> !>", "=:=:=:<!--!>>>", "x<![CDATA[y]]> <![CDAT <![CDATA =========== ============ =========="},
-	"generic-arrows":     {"страна a → b\u3000x→→y ←", "日本\u3000語 → 'q→' 12"},
+	"generic-arrows":     {"страна a → b\u3000x→→y ←", "日本\u3000語 → 'q→' 12", "a\u00a0b \u2003\u3000\u00a0 c\u2003"},
 	"csv-wide":           {"日本；語；«q；»»r«\r\nстрана；\"x\"\"y\"；；\n", "a,b；c\r«open；"},
 	"generic-quotes":     {"a «b c« “d“ 'e' \"f\" «open", "x«« ““y «'« “\"“"},
 	"generic-unknownsym": {"a ? b ?! c !? <= ?", "??!?\uffff?# c\n?"},
